@@ -1,0 +1,30 @@
+//go:build verif
+
+package core
+
+// Contracts for the deductive verifier in /verif (govc). Comments only; build tag "verif".
+//
+// C15: what a bridge node stores for a block it ingested from consensus. Ghost state: $PutQ4 / $PutODS -
+// the store was asked to keep the square with / without the parity quadrant. For every header, window
+// and mode: inside the window the square is stored with its parity quadrant; outside it an archival
+// node stores the original square only and a pruned node stores nothing and reports success; whatever
+// is stored is stored under the header's own DAH and height, and it is the square that was handed in;
+// a store failure is returned to the caller.
+
+//@ extern (*github.com/celestiaorg/celestia-node/store.Store).PutODSQ4
+//@   effect $PutQ4 := true
+//@   effect $PutErr := err != nil
+//@ extern (*github.com/celestiaorg/celestia-node/store.Store).PutODS
+//@   effect $PutODS := true
+//@   effect $PutErr := err != nil
+
+//@ func storeEDS
+//@   property C15
+//@   noframe
+//@   requires eh != nil && !$PutQ4 && !$PutODS && !$PutErr
+//@   callpre Store).PutODSQ4: $arg2 == eh.DAH && $arg3 == eh.Height() && $arg4 == eds
+//@   callpre Store).PutODS: $arg2 == eh.DAH && $arg3 == eh.Height() && $arg4 == eds
+//@   ensures availability.IsWithinWindow(eh.Time(), window) ==> $PutQ4 && !$PutODS
+//@   ensures !availability.IsWithinWindow(eh.Time(), window) && archival ==> $PutODS && !$PutQ4
+//@   ensures !availability.IsWithinWindow(eh.Time(), window) && !archival ==> !$PutODS && !$PutQ4 && result == nil
+//@   ensures $PutErr <==> result != nil
